@@ -478,7 +478,8 @@ def _clone(v):
 class Scenario(object):
     """Finite facts a path depends on."""
     def __init__(self, name='', bind=None, axioms=None, inline=None, inline_props=None, max_depth=3, self_cls=None,
-                 args=None, unroll=None, oracle=None, forward_stores=True, model_del=True, join_unknown=False):
+                 args=None, unroll=None, oracle=None, forward_stores=True, model_del=True, join_unknown=False,
+                 decide_filters=False, raises=None):
         self.name = name
         self.bind = bind or {}            # dotted path -> Val
         self.axioms = axioms or {}        # normalised condition text -> bool
@@ -492,12 +493,22 @@ class Scenario(object):
         self.forward_stores = forward_stores   # False for parse methods: attribute stores go through property setters
         self.model_del = model_del        # del buf[:n] rebinds buf to the remaining octets (False for reader-sequence extraction)
         self.join_unknown = join_unknown  # undecided `if`: run both arms and join the normal exits (call/store sets are united)
+        self.decide_filters = decide_filters   # comprehension filters the scenario decides are applied (True: dropped, False: empty result)
+        self.raises = raises              # callable(call text) -> exception text | None: calls the scenario says raise (the statement
+                                          # ends the path with status 'raise' in the state reached so far; an enclosing try may catch it)
 
 
 HASHLIB_CTORS = ('md5', 'sha1', 'sha224', 'sha256', 'sha384', 'sha512', 'sha3_224', 'sha3_256', 'sha3_384', 'sha3_512', 'blake2b', 'blake2s')
 
 BUILTIN_TYPES = {'str', 'bytes', 'bytearray', 'int', 'bool', 'list', 'tuple', 'set', 'dict', 'NoneType', 'datetime',
                  'timedelta'}
+
+
+class CallRaises(Exception):
+    """A call the scenario declares as raising (Scenario.raises) was evaluated."""
+    def __init__(self, text):
+        Exception.__init__(self, text)
+        self.text = text
 
 
 class Interp(object):
@@ -595,7 +606,14 @@ class Frame(object):
         if m is None:
             self.I.notes.append('unmodelled statement %s in %s' % (type(node).__name__, self.fi.qualname))
             return [(st, 'normal')]
-        return m(node, st)
+        if self.sc.raises is None:
+            return m(node, st)
+        try:
+            return m(node, st)
+        except CallRaises as ex:
+            st.raised = ex.text
+            st.events.append(('raise', ex.text, getattr(node, 'lineno', 0)))
+            return [(st, 'raise')]
 
     def st_Pass(self, node, st):
         return [(st, 'normal')]
@@ -823,6 +841,8 @@ class Frame(object):
 
     def st_For(self, node, st):
         vals, colltext = self._iter_values(node.iter, st, self._bname(node))
+        if vals is not None and isinstance(node.target, (ast.Tuple, ast.List)) and any(isinstance(v, EachV) for v in vals):
+            vals = None     # a summarised segment of unknown length cannot be destructured element-wise: summarise this loop too
         if vals is not None:
             cur = [(st, 'normal')]
             for v in vals:
@@ -1313,7 +1333,13 @@ class Frame(object):
             vt = self._assign_loopvars(g.target, s2, node, self._bname(g))
             st.bound[self._bname(g)] = it.split(' if ')[0]
             s2.bound[self._bname(g)] = it.split(' if ')[0]
-            conds = [self.cond_text(c, s2) for c in g.ifs]
+            conds = []
+            for c in g.ifs:
+                d = self.decide(c, s2) if self.sc.decide_filters else None
+                if d is False:
+                    return ListV([], 'set' if br == '{}' else 'list')      # the scenario says no element passes the filter
+                if d is None:
+                    conds.append(self.cond_text(c, s2))
             gens.append((vt, it, conds))
         if isinstance(node, ast.DictComp):
             eltv = None
@@ -1516,6 +1542,10 @@ class Frame(object):
         def record(ft):
             st.calls.append((ft, [render(a) for a in args], {k: render(v) for k, v in kwargs.items()}, node.lineno, node))
             st.events.append(('call', ft, [render(a) for a in args], {k: render(v) for k, v in kwargs.items()}, node.lineno))
+            if self.sc.raises is not None:
+                exc = self.sc.raises(ft)
+                if exc:
+                    raise CallRaises(exc)
 
         # ---- method calls on interpreted values
         if isinstance(func, ast.Attribute):
@@ -1562,6 +1592,16 @@ class Frame(object):
                     return Const(None)
                 if meth == 'extend' and len(args) == 1 and isinstance(args[0], ListV):
                     recv.elems.extend(args[0].elems)
+                    record(ftext)
+                    return Const(None)
+                if meth == 'insert' and len(args) == 2 and isinstance(args[0], Const) and isinstance(args[0].value, int) and \
+                        not isinstance(args[0].value, bool) and not any(isinstance(e, EachV) for e in recv.elems):
+                    recv.elems.insert(args[0].value, args[1])
+                    record(ftext)
+                    return Const(None)
+                if meth == 'extend' and len(args) == 1 and isinstance(args[0], EachV):
+                    # L.extend(<comprehension>) == for x in ..: L.append(elt): the same summary element a loop gets
+                    recv.elems.append(args[0])
                     record(ftext)
                     return Const(None)
             if isinstance(recv, Bytes) and meth == 'join' and len(args) == 1:
